@@ -129,8 +129,8 @@ func errText(err error) string {
 	}
 	msg := strings.ReplaceAll(strings.ReplaceAll(err.Error(), "\n", " "), "\t", " ")
 	msg = strings.ReplaceAll(msg, "|", "/")
-	if len(msg) > 160 {
-		msg = msg[:160]
+	if len(msg) > 400 {
+		msg = msg[:400]
 	}
 	return cls + ":" + msg
 }
